@@ -9,6 +9,23 @@ import (
 // then the Lean model.
 func runReadCases(ctx *runCtx, cases []*ReadCase, kindOf func(*ReadCase) string) {
 	rep := ctx.rep
+	// the ground truth of these generators does not account for the read limit (C08 does): a case whose
+	// expected messages exceed the default limit of 32768 bytes runs with the limit lifted
+	for _, c := range cases {
+		if c.Limit != nil {
+			continue
+		}
+		big := len(c.Exp.PartialOf)/2 > 32768
+		for _, m := range c.Exp.Msgs {
+			if len(m.Data)/2 > 32768 {
+				big = true
+			}
+		}
+		if big {
+			unlimited := int64(-1)
+			c.Limit = &unlimited
+		}
+	}
 	obs := make([]*Obs, len(cases))
 	var wg sync.WaitGroup
 	sem := make(chan struct{}, 16)
